@@ -24,6 +24,21 @@ pub fn scratch_root(pid: u32) -> PathBuf {
     PathBuf::from(format!("/dev/shm/nv.{pid}"))
 }
 
+/// Scratch directories of earlier runs whose process is gone (killed runs cannot clean up after
+/// themselves; /dev/shm is RAM).
+fn remove_stale_scratch() {
+    for (dir, prefix) in [("/dev/shm", "nv."), ("/tmp", "nv-ext4.")] {
+        let Ok(rd) = std::fs::read_dir(dir) else { continue };
+        for e in rd.flatten() {
+            let name = e.file_name().to_string_lossy().to_string();
+            let Some(pid) = name.strip_prefix(prefix).and_then(|p| p.parse::<u32>().ok()) else { continue };
+            if !Path::new(&format!("/proc/{pid}")).exists() {
+                let _ = std::fs::remove_dir_all(e.path());
+            }
+        }
+    }
+}
+
 pub fn matrix_width(tier: &str) -> u64 {
     if tier == "thorough" {
         24
@@ -754,6 +769,7 @@ pub fn cmd_check(args: &[String]) -> ExitCode {
     };
     let t0 = Instant::now();
     let pid = std::process::id();
+    remove_stale_scratch();
     let scratch = scratch_root(pid);
     let _ = std::fs::remove_dir_all(&scratch);
     std::fs::create_dir_all(&scratch).unwrap();
